@@ -981,14 +981,15 @@ def judge_corr(inp, obs, lr):
         if m["shape"] != st["shape"]:
             return {"expected": {"shape": m["shape"]}, "observed": {"shape": st["shape"]}, "tags": dict(tag, what="shape")}
         mp = N.dec(m["proj"])
-        if not O.allclose(st["proj"], mp, 1e-8):
+        # objects are projective: primary and derived data are compared row by row up to a non-zero scalar
+        if np.asarray(st["proj"]).shape != mp.shape or not O.rows_proj_eq(st["proj"], mp, 1e-8):
             return {"expected": {"proj": mp.tolist()}, "observed": {"proj": st["proj"]}, "tags": dict(tag, what="proj")}
         if (m["aux"] is None) != (st["aux"] is None):
             return {"expected": {"aux": m["aux"] is not None}, "observed": {"aux": st["aux"] is not None}, "tags": dict(tag, what="aux-presence")}
         if m["aux"] is not None:
             ma = N.dec(m["aux"])
             ia = np.array(st["aux"])
-            ok = ma.shape == ia.shape and (O.allclose(ia, ma, 1e-7) or (kind == "segment" and O.aux_proj_eq(kind, ia, ma, 1e-7)))
+            ok = ma.shape == ia.shape and O.aux_proj_eq(kind, ia, ma, 1e-7)
             if not ok:
                 return {"expected": {"aux": ma.tolist()}, "observed": {"aux": st["aux"]}, "tags": dict(tag, what="aux")}
     return None
@@ -1002,7 +1003,7 @@ def clauses():
                     "after every step composite shape, proj_data and aux_data of the implementation vs the Lean state machine Obj.step / Obj.afterQuery executed over Q "
                     "(data chosen so that every square root the library takes is rational; segments with interior/ideal endpoints in every combination and representatives of either sign)"),
         Clause("history_oracle", "oracle", gen_hist, run_hist, judge_hist, site="projective.ProjectiveObject (set/copy/apply/reshape/flatten/__getitem__/__setitem__/stack/combine/astype) + queries",
-               budget={"quick": 210, "thorough": 30000},
+               budget={"quick": 180, "thorough": 30000},
                what="histories over {copy, apply, reshape, flatten, index, set item, stack, combine, astype} on polygons, segments, tangent vectors of shapes (), (2,), (2,3) "
                     "interleaved with read-only queries (random depth <= 8 in quick; in thorough EVERY history of depth <= 4 over {apply, reshape, flatten, index, set item, stack, combine} "
                     "with copy/astype inserted at random): "
